@@ -1,8 +1,33 @@
 """X02 - beyond the listed properties: the API server's gate (ApiGate.tla), through the real binary."""
-import base64, json, os, socket, subprocess, time
+import base64, json, os, socket, subprocess, threading, time
 import vlib, c19
 
 USER, PW = "apiadmin", "api-s3cret-value"
+
+
+class NotFound(threading.Thread):
+    """an HTTP server that is not a forwarder: 404 for everything"""
+
+    def __init__(self):
+        super().__init__(daemon=True)
+        self.s = socket.socket()
+        self.s.bind(("127.0.0.1", 0))
+        self.s.listen(8)
+        self.port = self.s.getsockname()[1]
+
+    def run(self):
+        while True:
+            try:
+                c, _ = self.s.accept()
+            except OSError:
+                return
+            try:
+                c.settimeout(2)
+                c.recv(65536)
+                c.sendall(b"HTTP/1.1 404 Not Found\r\nContent-Length: 0\r\nConnection: close\r\n\r\n")
+            except OSError:
+                pass
+            c.close()
 
 
 def run(ctx):
@@ -12,6 +37,9 @@ def run(ctx):
                 "every (path, credentials) pair; a scripted origin counts connections. Non-trivial = gate on.")
     recs, g, d, _ = ctx.gen("ApiGate.tla", "GEN_ApiGate.cfg")
     cases = [r for r in recs if "c" in r]
+    probes = {r["probe"]: r["exit"] for r in recs if "probe" in r}
+    if len(probes) != 4:
+        raise vlib.Infra("ApiGate: %d probe targets" % len(probes))
     if len(cases) != 90:
         raise vlib.Infra("ApiGate: %d cases" % len(cases))
     fwd = ctx.build_cmd_forwarder()
@@ -30,6 +58,25 @@ def run(ctx):
                     break
                 except OSError:
                     time.sleep(0.05)
+            # the readiness probe against this server, and against a port nothing listens on / another server's
+            targets = [("serving-gated" if gate else "serving", api)]
+            if not gate:
+                targets += [("nothing-listens", c19.free_port()), ("other-server-404", None)]
+            for t, port in targets:
+                other = None
+                if port is None:
+                    other = NotFound()
+                    other.start()
+                    port = other.port
+                pr = subprocess.run([fwd, "ready", "--api-address", "127.0.0.1:%d" % port], stdout=subprocess.DEVNULL, stderr=subprocess.PIPE, timeout=20)
+                if other:
+                    other.s.close()
+                ctx.evaluations += 1
+                ctx.nontrivial.add("probe:" + t)
+                if (pr.returncode == 0) != (probes[t] == 0):
+                    ctx.violation("X02:probe:" + t, {"target": t, "why": "`forwarder ready` exit status %d, the model says %d" % (pr.returncode, probes[t]), "stderr": pr.stderr.decode("latin1")[-300:]})
+                else:
+                    ctx.traces_ok += 1
             for r in cases:
                 c, exp = r["c"], r["exp"]
                 if c["auth"] != gate:
